@@ -165,7 +165,7 @@ func c07Optimize(w *mon.W, id string, tbl codon.Table, snap plainTable, tdesc, p
 
 func runC07(w *mon.W) {
 	idx := 0
-	nProt := w.Pick(150, 1000)
+	nProt := w.Pick(150, 4000)
 	for ti, tid := range tableIDs {
 		for variant := 0; variant < 2; variant++ {
 			for k := 0; k < nProt; k++ {
@@ -214,7 +214,7 @@ func runC07(w *mon.W) {
 		_ = ti
 	}
 	// the same table value optimised, re-weighted in place and optimised again (histories of length 3..6)
-	nReuse := w.Pick(2000, 20000)
+	nReuse := w.Pick(2000, 100000)
 	for k := 0; k < nReuse; k++ {
 		id := fmt.Sprintf("reuse-%d", k)
 		idx++
@@ -262,7 +262,7 @@ func runC07(w *mon.W) {
 		w.End()
 	}
 	// unencodable inputs
-	nBad := w.Pick(1500, 10000)
+	nBad := w.Pick(1500, 50000)
 	for k := 0; k < nBad; k++ {
 		id := fmt.Sprintf("bad-%d", k)
 		idx++
@@ -325,7 +325,7 @@ func runC07(w *mon.W) {
 		w.End()
 	}
 	// generator outputs
-	nGen := w.Pick(1000, 6000)
+	nGen := w.Pick(1000, 30000)
 	aa20 := "ACDEFGHIKLMNPQRSTVWY*"
 	for k := 0; k < nGen; k++ {
 		id := fmt.Sprintf("gen-%d", k)
